@@ -234,9 +234,9 @@ W_Fetched(label) ==
 (* C17: the writes that are inside the critical section of the matched-    *)
 (* blocks lock                                                             *)
 (***************************************************************************)
-WInLock(op, label) ==
-    \/ op \in {"SetScripts", "Filters", "Block"}
-    \/ op = "Proof" /\ label \in {Lbl.rm, Lbl.rb}
+\* (the commit of a proof that moves the tip holds the lock from before the rollback until the tip and the peer's
+\*  prove state are updated; before fix 92f2bdb of /repo only around the record removals and the rollback, see MC_Conc)
+WInLock(op, label) == op \in {"SetScripts", "Filters", "Block", "Proof"}
 
 (***************************************************************************)
 (* C08: what must hold in EVERY state of the store, i.e. before every      *)
